@@ -313,7 +313,10 @@ def run(ctx):
                     {'self': {'root': None, 'vals': [None] * n_el}, 'services': [['sdc.ctxt.loc://[x/a/b']]},
                     {'self': {'root': None, 'vals': [None] * n_el}, 'services': [['sdc.ctxt.loc://a℀b/x/y']]}]
 
+    import time
+    t0 = time.time()
     impl = ctx.impl('c16_impl', {'roundtrip': rt_cases, 'published': pub_cases, 'foreign': fo_cases}, timeout=1200)
+    ctx.log(f'implementation run: {time.time() - t0:.1f}s for {len(rt_cases)}+{len(pub_cases)}+{len(fo_cases)} cases')
     if impl.get('_crash'):
         ctx.broken('correspondence', 'implementation run', impl['stderr'])
         return ctx.finish('implementation run crashed', [], [])
@@ -347,6 +350,7 @@ def run(ctx):
         ctx.broken('correspondence', 'roundtrip',
                    {'disagreements': len(mism), 'first': {'case': c, 'impl': {'text': r['text'], 'parse': r['parse']},
                                                           'model': ctx.coq_eval(HEADER, f'run_roundtrip {K} {lits[i][0]}')[-1500:]}})
+    ctx.log(f'roundtrip stream compared: {time.time() - t0:.1f}s')
     ctx.count('roundtrip', len(lits), keys, claim_applies=n_claim, encode_errors=n_encode_err,
               parse_outcomes=dict(Counter(r['parse'].get('err', 'ok') for *_, r in lits)))
     ctx.sample({'stream': 'roundtrip', 'case': rt_cases[2], 'scope': impl['roundtrip'][2].get('text'),
@@ -405,6 +409,7 @@ def run(ctx):
         ctx.broken('correspondence', 'published',
                    {'disagreements': len(mism), 'first': {'case': c, 'impl': {k: r.get(k) for k in ('state', 'texts', 'inside')},
                                                           'model': ctx.coq_eval(HEADER, f'({runf}) {inp}')[-1500:]}})
+    ctx.log(f'published stream compared: {time.time() - t0:.1f}s')
     ctx.count('published', len(lits), keys, verdicts=dict(verdicts),
               state_raises=sum(1 for *_, r in lits if r['state'] == 'raise'))
     ctx.sample({'stream': 'published', 'case': pub_cases[0], 'impl': {k: impl['published'][0].get(k) for k in ('state', 'texts', 'inside')}})
@@ -460,6 +465,7 @@ def run(ctx):
         ctx.broken('correspondence', 'foreign',
                    {'disagreements': len(mism), 'first': {'case': c, 'impl': {'kept': r['kept'], 'parse': r['parse']},
                                                           'model': ctx.coq_eval(HEADER, f'({runf}) {inp}')[-1500:]}})
+    ctx.log(f'foreign stream compared: {time.time() - t0:.1f}s')
     ctx.count('foreign', len(fo_cases), keys, compared_with_model=len(lits), out_of_model_invalid_utf8=n_oom,
               impl_raised=n_raise, kept_histogram={str(k_): v for k_, v in sorted(kept_hist.items())},
               generator_histogram=dict(sorted(fhist.items())))
